@@ -37,6 +37,7 @@ class Fail(Exception):
 
 def _rules(cfg):
     O.ENCODING[0] = cfg.get("encoding", "utf-8")  # every engine passes through here first
+    O.TEXT_ANCHORS[0] = bool(cfg.get("text_anchors"))
     return lrugen.RULES[cfg.get("default", "domain")], {O.dec(a): lrugen.RULES[n] for a, n in cfg.get("rules", [])}
 
 
